@@ -514,10 +514,35 @@ float_ieee754_quad::build(const bool negative,
   msp |= static_cast<uint64_t>(exponent_repr) << (MANTISSA_BITS - 64);
 }
 
+//! Returns the number of mantissa bits of the format \p f.
+inline unsigned int
+floating_point_format_mantissa_bits(const Floating_Point_Format f) {
+  switch (f) {
+  case IEEE754_HALF:
+    return float_ieee754_half::MANTISSA_BITS;
+  case IEEE754_SINGLE:
+    return float_ieee754_single::MANTISSA_BITS;
+  case IEEE754_DOUBLE:
+    return float_ieee754_double::MANTISSA_BITS;
+  case IEEE754_QUAD:
+    return float_ieee754_quad::MANTISSA_BITS;
+  case INTEL_DOUBLE_EXTENDED:
+    return float_intel_double_extended::MANTISSA_BITS;
+  case IBM_SINGLE:
+    return float_ibm_single::MANTISSA_BITS;
+  case IBM_DOUBLE:
+    return float_ibm_double::MANTISSA_BITS;
+  }
+  PPL_UNREACHABLE;
+  return 0;
+}
+
 inline bool
 is_less_precise_than(const Floating_Point_Format f1,
                      const Floating_Point_Format f2) {
-  return f1 < f2;
+  // Note: the enumerators are not listed by increasing precision.
+  return floating_point_format_mantissa_bits(f1)
+    < floating_point_format_mantissa_bits(f2);
 }
 
 inline unsigned int
